@@ -54,8 +54,14 @@ def sub2d(w, k):
     return t
 
 
-def three_d(eng, table, rows, cols, k=0, mean=False):
+def three_d(eng, table, rows, cols, k=0, mean=False, squared=False):
     w = CellWorld(eng, [table, rows, cols])
+    if squared:
+        # squared weights: the effective base of the pairwise column tests comes from the k-th plane of that measure too
+        SQ = w.free_measure("weighted_squared_count", "q")
+        for idx in np.ndindex(w.shape):
+            if eng.symbolic:
+                eng.assume(Q.lift(SQ[idx]) > 0)
     if mean:
         w.free_measure("mean" if mean is True else mean, "x", lo=0 if mean == "stddev" else None)
     P = eng.pyreal("P", lo=0)
@@ -204,6 +210,7 @@ def specs(tier):
     for meas in ("median", "stddev", "sum"):
         add("cat x mr x cat p1 with %s" % meas, "three_d", dict(table=("cat", "t", 2, {"missing_at": (1,)}), rows=("mr", "a", 2, {}), cols=cols, k=1, mean=meas))
     add("cat x cat x mr p0 with median", "three_d", dict(table=("cat", "t", 2, {"missing_at": (0,)}), rows=("cat", "a", 2, {"missing_at": (1,)}), cols=("mr", "b", 2, {}), k=0, mean="median"))
+    add("cat(missing first) x cat x cat p0 with squared weights", "three_d", dict(table=("cat", "t", 2, {"missing_at": (0,)}), rows=("cat", "a", 2, {"missing_at": (1,)}), cols=cols, k=0, squared=True))
     add("augmented single-column filter cube in a cube set", "augmented_filter_cube", dict())
     for k in (0, 1):
         add("ca as 0th set %d" % k, "ca_as_0th", dict(k=k))
